@@ -749,6 +749,8 @@ func main() {
 	// corpus (seeded-defect trial): 867100000 DR0-5 and 867100050 DR6
 	g.nbr = true
 	g.history("corpus-lookup-same-100hz-bucket", byName(band.EU868), []chanobs.Op{chanobs.Add(867100000, 0, 5), chanobs.Add(867100050, 6, 6)})
+	// corpus (audit of the unchanged library, finding C15-6): two custom channels share a frequency
+	g.history("corpus-lookup-two-customs-one-frequency", byName(band.EU868), []chanobs.Op{chanobs.Add(868300000, 6, 6), chanobs.Add(868300000, 7, 7)})
 	for _, name := range chanobs.Names {
 		reps := 1
 		if thorough {
@@ -766,6 +768,7 @@ func main() {
 				chanobs.Add(f0+uint32(1+r.Intn(99)), 0, 5),                                           // inside the bucket of a standard channel
 				chanobs.Add(f0, 6, 7),                                                                // the frequency of a standard channel
 				chanobs.Add(base+1000, 0, 5), chanobs.Add(base/1000*1000+uint32(r.Intn(1000)), 0, 5), // 1 kHz neighbours
+				chanobs.Add(base, 6, 6), chanobs.Add(base, 7, 7), // further customs with the frequency of the first, other data-rates
 			}
 			if r.Intn(2) == 0 {
 				ops = append(ops, chanobs.Disable(chanobs.RandIndex(r, len(ups)+4)))
